@@ -1459,6 +1459,12 @@ class MSgate(Channel):
         ancillae_val = backend.mb_squeeze_single_shot(*reg, r, phi, r_anc, eta_anc)
         return ancillae_val / s
 
+    def merge(self, other):
+        # the composition of two measurement-based squeezing operations is not a
+        # measurement-based squeezing operation (in particular not the one with the
+        # product of the squeezing values, which Channel.merge would return)
+        raise MergeFailure("Measurement-based squeezing operations cannot be merged.")
+
 
 class PassiveChannel(Channel):
     r"""Perform an arbitrary multimode passive operation
